@@ -87,6 +87,27 @@ CHECKS = {
             "real object; round trip, index preservation, fit_transform equivalence, seasonal phase relative to "
             "the training series, and equality with a +7 shifted twin",
             "4/C13", TRUST + "ACF/PACF are lag-indexed: values only under the shift."),
+    "C06": ("exploration", "E1", E1 + " (plain-Python math.fsum reference) plus metamorphic laws",
+            "all 18 metric functions and their classes over every y_true/y_pred/y_train/benchmark tuple of a small "
+            "value alphabet (L<=3, thorough L<=4) x every option they accept, against formulas transcribed from "
+            "the docstrings; non-negativity, perfect-forecast, swap, scale and class==function laws",
+            "4/C06", TRUST + "Small value alphabet incl. zeros and sign changes."),
+    "C16": ("exploration", "E1", E1 + " (metamorphic: all 24 permutations, all singletons and pairs, both containers)",
+            "26 panel transformer configurations, 8 classifiers and the forest regressor: for every fit container x "
+            "apply container, all 24 permutations / 4 singletons / 6 pairs of a 4-instance apply set must map row-wise",
+            "4/C16", TRUST + "Estimators that cannot run here (Cython, soft deps, sklearn-abstract) are excluded and listed in evidence."),
+    "C17": ("exploration", "E1", E1 + " with white-box recomputation from fitted trees/intervals",
+            "8 classifiers + forest regressor x 6 label sets x balance x 6 panels x 3 seeds: probability shape, range, "
+            "row sums, classes_ order, predict in arg-max set and label type, score; forest outputs recomputed from "
+            "fitted intervals and trees; column ensemble = mean of members",
+            "4/C17", TRUST + "Fractional float labels excluded (continuous targets by scikit-learn convention)."),
+    "C19": ("model_checking", "E2+E3", "explicit-state breadth-first search over benchmark run histories with exhaustive "
+            "crash-point injection (k-th fit / k-th predict raises, deviation-bounded) on the real Orchestrator and result stores",
+            "every run history (length <=3, crash budget <=2, thorough <=5/3) over all valid option assignments x every "
+            "crash point, each run on a new Orchestrator + new results object over the same path; states merged on a "
+            "canonical digest of the store; exactly-once, record == independent refit, load == stored, resume "
+            "equals uninterrupted run (records and registry), identical re-run does no fits, overwrite recomputes",
+            "4/C19", TRUST + "Crash = exception raised by the k-th fit/predict of a counting estimator (no partial file writes)."),
 }
 
 PENDING_REASON = "check not built yet in this round; planned in DESIGN.md section 4 (engine listed there)"
@@ -127,9 +148,9 @@ def build():
             dict(name="E1", path="mc/core.py", kind_free_text=E1,
                  serves_properties=[p for p in props if p in CHECKS and CHECKS[p][1] == "E1"]),
             dict(name="E2", path="mc/hist.py", kind_free_text=E2,
-                 serves_properties=[p for p in props if p in CHECKS and CHECKS[p][1] == "E2"]),
-            dict(name="E3", path="mc/core.py", kind_free_text=E3,
-                 serves_properties=[p for p in props if p in CHECKS and CHECKS[p][1] == "E3"]),
+                 serves_properties=[p for p in props if p in CHECKS and "E2" in CHECKS[p][1]]),
+            dict(name="E3", path="mc/checks/c19.py", kind_free_text=E3,
+                 serves_properties=[p for p in props if p in CHECKS and "E3" in CHECKS[p][1]]),
             dict(name="E4", path="mc/sched.py", kind_free_text=E4,
                  serves_properties=[p for p in props if p in CHECKS and "E4" in CHECKS[p][1]]),
         ],
